@@ -74,3 +74,96 @@ lemma new-identifier-differs-from-issued
   call r, err = e.createNewTokenIdentifier(caller, ticker)
   concl differs: err == nil ==> str(r) != issued
 @*/
+
+// ---- C36: delegation reward split (appended block) ----
+/*@
+// ---- C36: owner / delegator split of the rewards of an epoch (agent C) -----------------------------------------------
+struct delegation
+  invariant max-service-fee-positive: maxServiceFee >= 1
+
+// environment: the execution environment interface and the blockchain hook read state, they do not write the Go heap;
+// the epoch does not change during a call and stays below 2^32-1 (the loop counter of computeAndUpdateRewards is a uint32)
+func (e vm.SystemEI) GetStorage(key []byte) (r []byte)
+  assigns nothing
+func (e vm.SystemEI) BlockChainHook() (r vm.BlockchainHook)
+  pure
+  ensures r != nil
+func (h vm.BlockchainHook) CurrentEpoch() (r uint32)
+  pure
+  ensures epoch-below-2^32-1: r < 4294967295
+
+// the stored reward record of epoch e and the stored fund under a key, as read through d (storage is not written while
+// rewards are computed): presence, rewards to distribute, total active stake, service fee; fund value
+spec fn rdFound(d *delegation, e uint32) bool
+spec fn rdRewards(d *delegation, e uint32) int
+spec fn rdTotalActive(d *delegation, e uint32) int
+spec fn rdFee(d *delegation, e uint32) int
+spec fn fundValue(d *delegation, key []byte) int
+
+// records are written by updateRewardData with non-negative amounts and a service fee validated against maxServiceFee
+func (d *delegation) getRewardComputationData(epoch uint32) (found bool, rd *RewardComputationData, err error)
+  trusted
+  ensures  err == nil ==> found == rdFound(d, epoch)
+  ensures  err == nil && found ==> rd != nil && fresh(rd) && rd.RewardsToDistribute != nil && fresh(rd.RewardsToDistribute) && rd.TotalActive != nil && fresh(rd.TotalActive)
+  ensures  err == nil && found ==> big(rd.RewardsToDistribute) == rdRewards(d, epoch) && big(rd.TotalActive) == rdTotalActive(d, epoch) && rd.ServiceFee == rdFee(d, epoch)
+  ensures  stored-record-valid: err == nil && found ==> rdRewards(d, epoch) >= 0 && rdTotalActive(d, epoch) >= 0 && 0 <= rdFee(d, epoch) && rdFee(d, epoch) <= d.maxServiceFee
+  assigns  nothing
+
+func (d *delegation) getFund(key []byte) (f *Fund, err error)
+  trusted
+  ensures  err == nil ==> f != nil && fresh(f) && f.Value != nil && fresh(f.Value) && big(f.Value) == fundValue(d, key) && fundValue(d, key) >= 0
+  assigns  nothing
+
+func (d *delegation) isOwner(address []byte) (r bool)
+  requires d.eei != nil
+  assigns  nothing
+
+// sumRewards(d, a, b): rewards to distribute of the recorded epochs in [a, b)
+spec fn sumRewards(d *delegation, a int, b int) int
+  axiom b <= a ==> sumRewards(d, a, b) == 0
+  axiom b > a ==> sumRewards(d, a, b) == sumRewards(d, a, b-1) + (rdFound(d, uint32(b-1)) ? rdRewards(d, uint32(b-1)) : 0)
+
+// float64(fee) / float64(max) is a percentage: proved over bit-vectors and IEEE floats (the call-pre obligation of
+// GetIntTrimmedPercentageOfValue inside computeAndUpdateRewards is the same fact in integer mode, where the solvers do
+// not decide the integer-to-float conversion)
+lemma service-fee-ratio-is-a-percentage
+  mode bv
+  vars fee uint64, max uint64
+  hyp  fee <= max && max >= 1
+  concl at-least-zero: 0.0 <= float64(fee) / float64(max)
+  concl at-most-one: float64(fee) / float64(max) <= 1.0
+
+// the arithmetic of one epoch: with a percentage in [0,1] the owner's part o of the rewards R satisfies 0 <= o <= R (contract of
+// core.GetIntTrimmedPercentageOfValue); the delegators' pool is R - o, so owner part + pool == R exactly; a delegator with
+// stake s of the total t receives floor(pool * s / t), which lies between 0 and the pool
+lemma delegator-share-within-pool
+  vars rewards int, owner int, stake int, total int
+  hyp  0 <= owner && owner <= rewards && 0 <= stake && stake <= total && total > 0
+  concl split-is-exact: owner + (rewards - owner) == rewards
+  concl share-at-least-zero: ((rewards - owner) * stake) / total >= 0
+  concl share-at-most-pool: ((rewards - owner) * stake) / total <= rewards - owner
+  concl owner-and-share-at-most-rewards: owner + ((rewards - owner) * stake) / total <= rewards
+
+spec fn epochNow(d *delegation) int = d.eei.BlockChainHook().CurrentEpoch()
+
+func (d *delegation) computeAndUpdateRewards(callerAddress []byte, delegator *DelegatorData) (err error)
+  requires inv(d) && d.eei != nil
+  requires delegator != nil && delegator.UnClaimedRewards != nil && allocated(delegator.UnClaimedRewards)
+  requires global-zero-is-zero: zero != nil && big(zero) == 0 && allocated(zero)
+  requires staking-v2: flagSet(d.stakingV2Enabled)
+  requires stake-within-total-active: forall e uint32 :: rdFound(d, e) && rdTotalActive(d, e) > 0 ==> fundValue(d, delegator.ActiveFund) <= rdTotalActive(d, e)
+  ensures  nothing-without-active-fund: len(old(delegator.ActiveFund)) == 0 ==> err == nil && big(delegator.UnClaimedRewards) == old(big(delegator.UnClaimedRewards)) && delegator.RewardsCheckpoint == old(delegator.RewardsCheckpoint)
+  ensures  checkpoint-advanced: err == nil && len(old(delegator.ActiveFund)) > 0 ==> delegator.RewardsCheckpoint == epochNow(d) + 1
+  ensures  rewards-not-negative: err == nil ==> big(delegator.UnClaimedRewards) >= old(big(delegator.UnClaimedRewards))
+  ensures  rewards-at-most-distributed: err == nil && len(old(delegator.ActiveFund)) > 0 ==> big(delegator.UnClaimedRewards) - old(big(delegator.UnClaimedRewards)) <= sumRewards(d, old(delegator.RewardsCheckpoint), epochNow(d) + 1)
+  ensures  unchanged-on-error: err != nil ==> big(delegator.UnClaimedRewards) == old(big(delegator.UnClaimedRewards)) && delegator.RewardsCheckpoint == old(delegator.RewardsCheckpoint)
+  assigns  big(delegator.UnClaimedRewards), delegator.RewardsCheckpoint
+
+loop 1
+  invariant old(delegator.RewardsCheckpoint) <= i && (i <= currentEpoch + 1 || i == old(delegator.RewardsCheckpoint))
+  invariant currentEpoch == epochNow(d)
+  invariant 0 <= big(totalRewards)
+  invariant big(totalRewards) <= sumRewards(d, old(delegator.RewardsCheckpoint), i)
+  invariant big(activeFund.Value) == fundValue(d, delegator.ActiveFund)
+  invariant big(delegator.UnClaimedRewards) == old(big(delegator.UnClaimedRewards)) && big(zero) == 0
+@*/
